@@ -20,7 +20,7 @@ def run_e2e(v, wd, tier, which):
     scen = [s for s in g.json_prints("SCEN") if (s["spec"]["max"] > 0) == (which == "spec")]
     scen.sort(key=lambda s: json.dumps(s, sort_keys=True))
     if tier == "quick" and which == "retry":
-        scen = scen[::2]
+        scen = scen[::2] + [s for s in scen[1::2] if s.get("orphans")]
     if tier == "thorough" and len(scen) > 3000:
         import random
         from common import seed
@@ -53,6 +53,12 @@ def run_e2e(v, wd, tier, which):
         v.violation("end to end: %s statement, %sidempotent, %s policy, consistency %s, speculation %s, nodes scripted to answer %s: the cluster received (node, consistency, answer, in us, out us) %s and the caller got %s" % (
             x["kind"], "" if x["idem"] else "NOT ", x["policy"], x["clname"], x["spec"], [(s["r"], s["delay_ms"]) for s in x["script"]],
             [(f["node"], f["cl"], f["reply"], f["t_in"], f["t_out"]) for f in x["frames"]], "success" if x["ok"] else "an error (%s)" % x["err"][:80]), [x])
+    if which == "retry":
+        orph = [x for s, x in zip(scen, rows) if s.get("orphans")]
+        live = sum(1 for x in orph if (x["idem"] == 0 and "orphan" in x["err"].lower()) or (x["idem"] == 1 and len(x["frames"]) >= 2))
+        if orph and live == 0 and not bad:
+            raise ToolError("e2e: in none of the %d orphan scenarios did the driver break the connection under the request (%s)" % (len(orph), [x["err"][:60] for x in orph]))
+        v.add(e2e_orphan_break_scenarios=len(orph), e2e_orphan_break_scenarios_live=live)
     v.add(**{"e2e_%s_scenarios" % which: len(rows), "e2e_%s_frames" % which: sum(len(x["frames"]) for x in rows), "e2e_%s_table_drift" % which: len(drift)})
     if not bad:
         base = next(x for x in rows if len(x["frames"]) >= 2)
